@@ -8,8 +8,10 @@
      GV.Marshal.ModelRefactor  runtime/loadunit.go RefactorCodeConsts (on codes owning
                                their constants, and on a compiled unit whose codes share
                                one vector), lib/stringlib/dump.go
-   lim is the size in bytes one Go allocation can get; wf lim k says that k holds
-   what Go values of these types can hold and that each of its slices fits in lim.
+   The reader modelled is the REPAIRED one (fix: lengths validated and budget consumed
+   before allocating; negative counts rejected; budget 0 only means unlimited at the start).
+   lim is the size in bytes one Go allocation can get; every allocation of the reader is a
+   step of the model.  wf k says that k holds what Go values of these types can hold.
    No axioms. *)
 From Coq Require Import ZArith List.
 From GV Require Import Marshal.Model Marshal.ModelRefactor Marshal.Proofs Marshal.RefactorProofs.
@@ -17,36 +19,85 @@ Import ListNotations.
 Open Scope Z_scope.
 
 (* UnmarshalConst undoes MarshalConst: every well-formed constant, codes nested to any
-   depth, whatever follows in the stream, with an unlimited (0) or sufficient budget; the
-   budget left is the budget minus the number of bytes of the encoding. *)
+   depth, whatever follows in the stream, with no budget (0) or a budget of at least the
+   encoded length; the budget left is the budget minus the number of bytes read. *)
 Theorem C13_unmarshal_marshal :
-  forall lim k rest b, 0 <= lim <= maxAlloc -> wf lim k -> enough b (cost k) ->
-  unmarshal lim b (marshal k ++ rest) = UOk k rest (after b (cost k)).
+  forall lim k rest b, wf k -> 48 * cost k + 66048 <= lim <= maxAlloc -> suffices b (cost k) ->
+  unmarshal lim b (marshal k ++ rest) = UOk k rest (left_after b (cost k)).
 Proof. exact unmarshal_marshal. Qed.
 Print Assumptions C13_unmarshal_marshal.
 
 (* the hypotheses are satisfiable *)
-Theorem C13_wf_example : wf 1048576 ex_code.
+Theorem C13_wf_example : wf ex_code /\ fits ex_code.
 Proof. exact ex_code_wf. Qed.
 Print Assumptions C13_wf_example.
 
 Theorem C13_marshal_injective :
-  forall lim k1 k2, 0 <= lim <= maxAlloc -> wf lim k1 -> wf lim k2 -> marshal k1 = marshal k2 -> k1 = k2.
+  forall k1 k2, wf k1 -> wf k2 -> fits k1 -> marshal k1 = marshal k2 -> k1 = k2.
 Proof. exact marshal_injective. Qed.
 Print Assumptions C13_marshal_injective.
 
 Theorem C13_marshal_prefix_free :
-  forall lim k1 k2 r1 r2, 0 <= lim <= maxAlloc -> wf lim k1 -> wf lim k2 ->
+  forall k1 k2 r1 r2, wf k1 -> wf k2 -> fits k1 -> fits k2 ->
   marshal k1 ++ r1 = marshal k2 ++ r2 -> k1 = k2 /\ r1 = r2.
 Proof. exact marshal_prefix_free. Qed.
 Print Assumptions C13_marshal_prefix_free.
 
 (* load of a dump gives the code back, with UpvalueCount upvalue cells *)
 Theorem C13_load_marshal :
-  forall lim h ks, 0 <= lim <= maxAlloc -> wf lim (KCode h ks) -> 0 <= upvalueCount h ->
+  forall lim h ks, wf (KCode h ks) -> 48 * cost (KCode h ks) + 66048 <= lim <= maxAlloc ->
   load_binary lim 0 (marshal (KCode h ks)) = LFun (KCode h ks) (upvalueCount h).
 Proof. exact load_marshal. Qed.
 Print Assumptions C13_load_marshal.
+
+(* TOTAL, for ALL byte strings and ALL budgets (was refuted before the repair): UnmarshalConst
+   returns a value, an error, or stops on the budget.  It never raises a Go panic, never needs
+   one allocation above 48 bytes per input byte + 66048, never runs out of model fuel. *)
+Theorem C13_unmarshal_total_no_panic :
+  forall lim budget inp, 48 * zlen inp + 66048 <= lim <= maxAlloc ->
+  match unmarshal lim budget inp with
+  | UOk _ _ _ | UErr _ _ | UBudget => True
+  | UPanic | UFatal _ | UOutOfFuel => False
+  end.
+Proof. exact unmarshal_total_no_panic. Qed.
+Print Assumptions C13_unmarshal_total_no_panic.
+
+(* what the caller of UnmarshalConst sees: "nil, no error" only for an exhausted budget *)
+Theorem C13_go_unmarshal_never_crashes :
+  forall lim budget inp, 48 * zlen inp + 66048 <= lim <= maxAlloc ->
+  match go_unmarshal lim budget inp with
+  | GVal _ _ | GErr _ _ => True
+  | GNil u => u = budget
+  | GCrash _ | GOutOfFuel => False
+  end.
+Proof. exact go_unmarshal_never_crashes. Qed.
+Print Assumptions C13_go_unmarshal_never_crashes.
+
+(* load(s, name, "b") on ALL byte strings (was refuted before the repair): a function whose
+   upvalue-cell count is the code's non-negative UpvalueCount, or an ordinary error. *)
+Theorem C13_load_no_panic :
+  forall lim budget inp, 48 * zlen inp + 66048 <= lim <= maxAlloc ->
+  match load_binary lim budget inp with
+  | LFun (KCode h _) nup => nup = upvalueCount h /\ 0 <= nup
+  | LFun _ _ => False
+  | LNotFunction | LErr _ => True
+  | LPanic | LCrash _ | LOutOfFuel => False
+  end.
+Proof. exact load_no_panic. Qed.
+Print Assumptions C13_load_no_panic.
+
+(* the former witnesses are ordinary errors now (replayed on Go from corpus/C13 on every run) *)
+Theorem C13_former_witnesses :
+  go_unmarshal 1048576 0 crash_witness = GErr EEof 0 /\
+  go_unmarshal 1048576 100000 crash_witness = GNil 100000 /\
+  load_binary 1048576 0 upvalue_witness = LErr EInvalidCode.
+Proof. exact crash_witness_now_error. Qed.
+Print Assumptions C13_former_witnesses.
+
+(* MarshalConst's budget: every byte written is charged except the opcode and line arrays *)
+Theorem C13_marshal_charge : forall k, mcharge k + 4 * words k = cost k.
+Proof. exact marshal_charge. Qed.
+Print Assumptions C13_marshal_charge.
 
 (* RefactorCodeConsts: every opcode keeps its non-index bits; an opcode that loads a
    constant loads the same constant before and after, or, for a nested function, its
@@ -82,6 +133,16 @@ Theorem C13_refactor_idempotent :
 Proof. exact refactor_idempotent. Qed.
 Print Assumptions C13_refactor_idempotent.
 
+(* the refactoring keeps every field in the range of its Go type *)
+Theorem C13_refactor_wf : forall k k', wf k -> refactor_cst k = ROk k' -> wf k'.
+Proof. exact refactor_wf. Qed.
+Print Assumptions C13_refactor_wf.
+
+Theorem C13_refactor_unit_wf :
+  forall fuel u n k, (forall c, In c u -> wf_ucst c) -> refactor_unit fuel u n = ROk k -> wf k.
+Proof. exact refactor_unit_wf. Qed.
+Print Assumptions C13_refactor_unit_wf.
+
 (* what string.dump marshals for a compiled closure is a fixed point of the refactoring *)
 Theorem C13_compiled_dump_is_fixed_point :
   forall fuel u n k, refactor_unit fuel u n = ROk k -> refactor_cst k = ROk k.
@@ -96,52 +157,26 @@ Theorem C13_refactor_example :
 Proof. exact ex_refactor. Qed.
 Print Assumptions C13_refactor_example.
 
-(* dump, load, dump: load(dump f) is the refactored code of f and dumping it gives the
-   same bytes.  (wf of the refactored code is a hypothesis: that the refactoring keeps
-   field ranges is not proved here.) *)
+(* dump, load, dump: for every well-formed code, load(dump f) is the refactored code of f and
+   dumping it gives the same bytes; the only other hypothesis is that the bytes fit in memory. *)
 Theorem C13_dump_load_dump_stable :
-  forall lim k h' ks' bs, 0 <= lim <= maxAlloc ->
-  dump k = ROk bs ->
-  refactor_cst k = ROk (KCode h' ks') -> wf lim (KCode h' ks') -> 0 <= upvalueCount h' ->
+  forall lim k h' ks' bs, wf k -> dump k = ROk bs -> refactor_cst k = ROk (KCode h' ks') ->
+  48 * zlen bs + 66048 <= lim <= maxAlloc ->
   load_binary lim 0 bs = LFun (KCode h' ks') (upvalueCount h') /\ dump (KCode h' ks') = ROk bs.
 Proof. exact dump_load_dump_stable. Qed.
 Print Assumptions C13_dump_load_dump_stable.
 
 Theorem C13_dump_unit_load_dump_stable :
-  forall lim u n h' ks' bs, 0 <= lim <= maxAlloc ->
-  dump_unit u n = ROk bs ->
-  refactor_unit (S (length u)) u n = ROk (KCode h' ks') -> wf lim (KCode h' ks') -> 0 <= upvalueCount h' ->
+  forall lim u n h' ks' bs, (forall c, In c u -> wf_ucst c) ->
+  dump_unit u n = ROk bs -> refactor_unit (S (length u)) u n = ROk (KCode h' ks') ->
+  48 * zlen bs + 66048 <= lim <= maxAlloc ->
   load_binary lim 0 bs = LFun (KCode h' ks') (upvalueCount h') /\ dump (KCode h' ks') = ROk bs.
 Proof. exact dump_unit_load_dump_stable. Qed.
 Print Assumptions C13_dump_unit_load_dump_stable.
 
 (* dumping is deterministic (a function) and two dumps are equal only for equal refactored codes *)
 Theorem C13_dump_deterministic_injective :
-  forall lim k1 k2 k1' k2', 0 <= lim <= maxAlloc ->
-  refactor_cst k1 = ROk k1' -> refactor_cst k2 = ROk k2' -> wf lim k1' -> wf lim k2' ->
+  forall k1 k2 k1' k2', wf k1 -> wf k2 -> refactor_cst k1 = ROk k1' -> refactor_cst k2 = ROk k2' -> fits k1' ->
   (dump k1 = dump k2 <-> k1' = k2').
 Proof. exact dump_deterministic_injective. Qed.
 Print Assumptions C13_dump_deterministic_injective.
-
-(* REFUTED on the code as it stands: "no input makes UnmarshalConst / load take the process
-   down".  A 28-byte stream requests a 4 TiB allocation before any check, with or without
-   a budget; the witness is replayed on the Go code by every run of the check. *)
-Theorem C13_unmarshal_total_no_panic_refuted :
-  exists inp, length inp = 28%nat /\
-    go_unmarshal (2 ^ 32) 0 inp = GCrash (2 ^ 42) /\
-    go_unmarshal (2 ^ 32) 1000 inp = GCrash (2 ^ 42) /\
-    load_binary (2 ^ 32) 1000 inp = LCrash (2 ^ 42).
-Proof. exact unmarshal_total_no_panic_refuted. Qed.
-Print Assumptions C13_unmarshal_total_no_panic_refuted.
-
-(* REFUTED: "load never raises a Go panic": a decodable code with UpvalueCount = -1. *)
-Theorem C13_load_no_panic_refuted :
-  exists inp, length inp = 58%nat /\ load_binary (2 ^ 32) 0 inp = LPanic.
-Proof. exact load_no_panic_refuted. Qed.
-Print Assumptions C13_load_no_panic_refuted.
-
-(* a negative length is a Go panic that UnmarshalConst's recover() turns into (nil, 0, nil) *)
-Theorem C13_unmarshal_swallows_panic :
-  exists inp, go_unmarshal (2 ^ 32) 0 inp = GNil 0.
-Proof. exact unmarshal_swallows_panic. Qed.
-Print Assumptions C13_unmarshal_swallows_panic.
